@@ -132,8 +132,15 @@ def requires(qual):
     return _reg("requires", qual)
 
 
-def ensures(qual):
-    return _reg("ensures", qual)
+def ensures(qual, static_only=False):
+    """static_only: the clause talks about ghost state of assumed library models (spline source, call records) that does
+    not exist at run time; it is discharged by the verifier but skipped by the run-time monitor"""
+    def deco(fn):
+        _reg("ensures", qual)(fn)
+        if static_only:
+            _c(qual).opts.setdefault("static_only", set()).add(fn.__name__)
+        return fn
+    return deco
 
 
 def raises(qual, exc):
@@ -316,3 +323,37 @@ def ncols(m):
 
 def is_tuple(v):
     return isinstance(v, tuple)
+
+
+def is_seq(v):
+    import numpy as np
+    return isinstance(v, (list, tuple, np.ndarray))
+
+
+def std_of(a):
+    import numpy as np
+    return float(np.std(a))
+
+
+_GHOST = {"normal_calls": []}
+
+
+def n_normal_calls():
+    return len(_GHOST["normal_calls"])
+
+
+def normal_loc(k):
+    return _GHOST["normal_calls"][k]["loc"]
+
+
+def normal_scale(k):
+    return _GHOST["normal_calls"][k]["scale"]
+
+
+def normal_size(k):
+    s = _GHOST["normal_calls"][k]["size"]
+    return s[0] if isinstance(s, tuple) else s
+
+
+def normal_result(k):
+    return _GHOST["normal_calls"][k]["result"]
